@@ -9,6 +9,7 @@ import (
 	"math/rand"
 	"runtime"
 	"strings"
+	"sync/atomic"
 	"time"
 
 	"github.com/openconfig/gribigo/client"
@@ -69,23 +70,24 @@ type Input struct {
 
 // Runner drives one client.
 type Runner struct {
-	Sink      ribdrv.Sink
-	c         *client.Client
-	stub      *stubs.Client
-	strm      *stubs.ModifyStream
-	cfg       Input
-	nrecv     int // responses/faults delivered on the current stream
-	wantTx    int // messages expected on the current stream so far (sent + failed)
-	dead      bool
-	Steps     int
-	Hangs     int
-	base      int // goroutines before the client was created
-	isSending bool
-	lastSnaps []any
-	recvDead  bool
-	snd       string // mirror of the sender goroutine: alive | lastone | dead
-	wantCalls int    // Send calls expected on the current stream
-	queued    int    // messages queued before StartSending
+	Sink        ribdrv.Sink
+	c           *client.Client
+	stub        *stubs.Client
+	strm        *stubs.ModifyStream
+	cfg         Input
+	nrecv       int // responses/faults delivered on the current stream
+	wantTx      int // messages expected on the current stream so far (sent + failed)
+	dead        bool
+	Steps       int
+	GateMissing int
+	Hangs       int
+	base        int // goroutines before the client was created
+	isSending   bool
+	lastSnaps   []any
+	recvDead    bool
+	snd         string // mirror of the sender goroutine: alive | lastone | dead
+	wantCalls   int    // Send calls expected on the current stream
+	queued      int    // messages queued before StartSending
 }
 
 // waitRecv waits until the receiver has consumed what was just delivered: it
@@ -487,45 +489,113 @@ func (rn *Runner) Step(in Input) error {
 		}
 		before, errs0 := rn.strm.RecvEntered(), rn.readErrs()
 		// poll Status() concurrently with the receiver: every snapshot must account for every operation
-		stop, polled := make(chan struct{}), make(chan []any, 1)
-		go func() {
-			seen := map[string]bool{}
-			out := []any{}
-			for {
-				select {
-				case <-stop:
-					polled <- out
-					return
-				default:
-				}
-				if cs, err := rn.c.Status(); err == nil {
-					p, t := []uint64{}, []uint64{}
-					for _, x := range cs.PendingTransactions {
-						if o, ok := x.(*client.PendingOp); ok {
-							p = append(p, o.Op.GetId())
-						}
-					}
-					for _, x := range cs.Results {
-						if x != nil && x.Details != nil {
-							t = append(t, x.OperationID)
-						}
-					}
-					k := fmt.Sprint(p, t)
-					if !seen[k] && len(out) < 40 {
-						seen[k] = true
-						out = append(out, map[string]any{"pend": p, "res": t})
-					}
-				}
-			}
-		}()
-		if !rn.strm.Deliver(concResp(in.R)) {
-			close(stop)
-			<-polled
-			return nil
+		// (several pollers when the response is a large batch: the receiver then works for a while)
+		np := 1
+		if in.R != nil && len(in.R.Results) >= 16 {
+			np = 4
 		}
-		rn.waitRecv(before, -1)
+		stop, polled1 := make(chan struct{}), make(chan []any, np)
+		for pi := 0; pi < np; pi++ {
+			go func() {
+				seen := map[string]bool{}
+				out := []any{}
+				var minSnap map[string]any
+				minN := 0
+				for {
+					select {
+					case <-stop:
+						if minSnap != nil {
+							out = append(out, minSnap)
+						}
+						polled1 <- out
+						return
+					default:
+					}
+					if cs, err := rn.c.Status(); err == nil {
+						p, t := []uint64{}, []uint64{}
+						for _, x := range cs.PendingTransactions {
+							if o, ok := x.(*client.PendingOp); ok {
+								p = append(p, o.Op.GetId())
+							}
+						}
+						for _, x := range cs.Results {
+							if x != nil && x.Details != nil {
+								t = append(t, x.OperationID)
+							}
+						}
+						// keep the first few distinct snapshots and the one accounting for the fewest operations
+						k := fmt.Sprint(p, t)
+						if !seen[k] && len(out) < 24/np {
+							seen[k] = true
+							out = append(out, map[string]any{"pend": p, "res": t})
+						}
+						u := map[uint64]bool{}
+						for _, x := range p {
+							u[x] = true
+						}
+						for _, x := range t {
+							u[x] = true
+						}
+						if minSnap == nil || len(u) < minN {
+							minN, minSnap = len(u), map[string]any{"pend": p, "res": t}
+						}
+					}
+				}
+			}()
+		}
+		polled := make(chan []any, 1)
+		go func() {
+			all := []any{}
+			for pi := 0; pi < np; pi++ {
+				all = append(all, (<-polled1)...)
+			}
+			polled <- all
+		}()
+		// one Status() call is held at the gate between its two reads until the receiver has handled the response
+		var armed atomic.Int32
+		armed.Store(1)
+		atGate, release, straddle := make(chan struct{}), make(chan struct{}), make(chan any, 1)
+		client.VerifSetGate(func(site string) {
+			if site == "status.mid" && armed.CompareAndSwap(1, 2) {
+				close(atGate)
+				<-release
+			}
+		})
+		go func() {
+			cs, err := rn.c.Status()
+			if err != nil || cs == nil {
+				straddle <- nil
+				return
+			}
+			straddle <- snapOf(cs)
+		}()
+		if rn.GateMissing == 0 {
+			select {
+			case <-atGate:
+			case <-time.After(2 * time.Second):
+				rn.GateMissing++ // the Status() call never reached the gate: the hook is gone
+			}
+		}
+		ok := rn.strm.Deliver(concResp(in.R))
+		if ok {
+			rn.waitRecv(before, -1)
+		}
+		armed.Store(0)
+		close(release)
+		var held any
+		select {
+		case held = <-straddle:
+		case <-time.After(2 * time.Second):
+		}
+		client.VerifSetGate(nil)
 		close(stop)
 		snaps := <-polled
+		if !ok {
+			return nil
+		}
+		if held != nil {
+			snaps = append(snaps, held)
+		}
 		rn.recvDead = rn.readErrs() > errs0
 		defer func() { _ = snaps }()
 		rn.lastSnaps = snaps
@@ -622,6 +692,53 @@ func elecOr0(in Input) []int {
 }
 
 // Random generates a seeded input sequence.
+func snapOf(cs *client.ClientStatus) map[string]any {
+	p, t := []uint64{}, []uint64{}
+	for _, x := range cs.PendingTransactions {
+		if o, ok := x.(*client.PendingOp); ok {
+			p = append(p, o.Op.GetId())
+		}
+	}
+	for _, x := range cs.Results {
+		if x != nil && x.Details != nil {
+			t = append(t, x.OperationID)
+		}
+	}
+	return map[string]any{"pend": p, "res": t}
+}
+
+// Storm is a well-behaved exchange with large batches: many operations are queued and answered
+// in one response each round, so that the receiver works through a long batch while Status() is polled.
+func Storm(r *rand.Rand, rounds int) []Input {
+	fib := r.Intn(2) == 0
+	ins := []Input{{A: "new", Fib: fib, Elected: true, Params: true, Elec: []int{0, 1 + r.Intn(3)}}, {A: "connect"}, {A: "start"}}
+	var id uint64
+	for k := 0; k < rounds; k++ {
+		var rs []Res
+		for m := 0; m < 8; m++ {
+			msg := &Msg{K: "ops"}
+			for i := 0; i < 6; i++ {
+				id++
+				msg.Ops = append(msg.Ops, Op{ID: id, Typ: "ADD", Kind: []string{"nh", "nhg", "v4", "v6", "mpls"}[r.Intn(5)], Key: 1 + r.Intn(3)})
+				rs = append(rs, Res{ID: id, St: "RIB"})
+			}
+			ins = append(ins, Input{A: "q", M: msg})
+		}
+		r.Shuffle(len(rs), func(i, j int) { rs[i], rs[j] = rs[j], rs[i] })
+		ins = append(ins, Input{A: "deliver", R: &Resp{K: "res", Results: rs}})
+		if fib {
+			fs := make([]Res, len(rs))
+			for i, x := range rs {
+				fs[i] = Res{ID: x.ID, St: "FIB"}
+			}
+			r.Shuffle(len(fs), func(i, j int) { fs[i], fs[j] = fs[j], fs[i] })
+			ins = append(ins, Input{A: "deliver", R: &Resp{K: "res", Results: fs}})
+		}
+		ins = append(ins, Input{A: "await"})
+	}
+	return append(ins, Input{A: "close"})
+}
+
 func Random(r *rand.Rand, n int) []Input {
 	fib := r.Intn(2) == 0
 	elected := r.Intn(4) != 0
